@@ -86,10 +86,20 @@ pub fn attr_split(input: &str) -> impl Iterator<Item = String> + '_ {
 }
 
 pub fn extract_urlref(input: &str) -> Option<ElRef> {
-    input
+    // CSS allows white space inside the brackets and a quoted URL:
+    // `url(#id)`, `url( #id )`, `url('#id')`, `url("#id")`
+    let inner = input
         .trim()
-        .strip_prefix("url(#")
-        .and_then(|s| s.strip_suffix(')'))
+        .strip_prefix("url(")
+        .and_then(|s| s.strip_suffix(')'))?
+        .trim();
+    let inner = ['\'', '"']
+        .iter()
+        .find_map(|q| inner.strip_prefix(*q).and_then(|s| s.strip_suffix(*q)))
+        .unwrap_or(inner);
+    inner
+        .trim()
+        .strip_prefix('#')
         .map(|id| ElRef::Id(id.to_string()))
 }
 
